@@ -91,6 +91,7 @@ Fixpoint trace_eqb (a b : list (list out)) : bool :=
 (* ---- histories with future arguments named by "j-th returned future" ---- *)
 Inductive cop :=
 | COp (o : op) | CUnsub (j : N) | CUnreg (j : N) | CCancel (j : N)
+| CReact (j : N) (a : cop)       (* the callback that issues the API call [a] is attached to the j-th returned future *)
 | CInline (a : cop) (r : op).    (* API call [a]; the router message [r] is delivered re-entrantly from inside
                                     transport.send() of the request (loopback / in-process router links) *)
 
@@ -116,6 +117,10 @@ Fixpoint resolve (ret : list N) (c : cop) : option op :=
   | CUnsub j => match nth_error ret (N.to_nat j) with Some f => Some (AUnsubscribe f) | None => None end
   | CUnreg j => match nth_error ret (N.to_nat j) with Some f => Some (AUnregister f) | None => None end
   | CCancel j => match nth_error ret (N.to_nat j) with Some f => Some (ACancel f) | None => None end
+  | CReact j a => match nth_error ret (N.to_nat j), resolve ret a with
+                  | Some f, Some o => Some (AReact f o)
+                  | _, _ => None
+                  end
   | CInline a _ => resolve ret a
   end.
 
